@@ -34,6 +34,7 @@ static binson_parser p;
 static ref_cursor rc;
 static uint8_t *buf;
 static uint8_t nm[2];
+uint8_t vc_wit[VC_N];      /* copy of the input bytes, so that a counterexample trace shows them */
 
 static binson_type ref_type(int k)
 {
@@ -211,6 +212,7 @@ void h_nav(void)
     int why;
     __CPROVER_assume(ref_verify(buf, VC_N, VC_ROOT_ARRAY, VC_MD, &why));
     nm[0] = nondet_uchar(); nm[1] = nondet_uchar();
+    for (size_t i = 0; i < VC_N; i++) { vc_wit[i] = buf[i]; }
     binson_state *st = malloc(VC_MD * sizeof(binson_state));
     __CPROVER_assume(st != NULL);
     p.state = st;
